@@ -65,6 +65,9 @@ def run(ck):
     literal_path(ck)
     stateless_tokens(ck)
     placeholder_text_intact(ck)
+    ck.rule("C12-O7", "message text is inserted verbatim: LogMessage keeps the text it is given")
+    from rules.oth import message_text_intact
+    message_text_intact(ck, ck.facts, "C12-O7", "%{message} prints another text than the one that was logged")
 
 
 def token_fns(F, method):
